@@ -110,10 +110,23 @@ Theorem C04_strictly_convex_KKT_is_unique_min : forall (V : Type) (f : V -> R) (
   (forall y, neq y x -> f x + df x y < f y) -> kkt_exact V df x cons -> concave_cons V x cons ->
   forall y, feasible V cons y -> neq y x -> f x < f y.
 Proof. exact strictly_convex_KKT_is_unique_min. Qed.
-(* NOT PROVED: the approximate version (tolerance-KKT point of a convex problem is within O(tol) of the minimiser): needs
-   strong-convexity and constraint-qualification constants that the property does not fix; the harness compares returned
-   points with an independent active-set enumeration instead.
-   NOT PROVED: convergence (that the loop returns at all): NotConverged (the NameError exit) is a legitimate outcome. *)
+(* quantitative version: approximate KKT point x (multipliers >= 0, Lagrangian gradient <= eg, possibly slightly infeasible) of a
+   problem whose objective is mu-strongly convex (first-order sense, at x and at xs) with concave constraints, against an exact KKT
+   point xs with multipliers lam_s, d = |x - xs|:   mu d^2 <= eg d + S + Vi,  so  d <= (eg + sqrt(eg^2 + 4 mu (S + Vi))) / (2 mu),
+   S = sum lam_i max(c_i(x),0),  Vi = sum lam_s_i max(-c_i(x),0).  Both are O(tol) by C04_return_is_KKT and C04_product_from_min. *)
+Theorem C04_approx_KKT_is_near_min : forall (V : Type) (f : V -> R) (df : V -> V -> R) (x xs : V) (mu eg d : R) (cons cons_s : conlist V),
+  0 < mu -> 0 <= eg -> 0 <= d ->
+  f x + df x xs + mu / 2 * (d * d) <= f xs ->
+  f xs + df xs x + mu / 2 * (d * d) <= f x ->
+  Rabs (df x xs - lagr_pairing V x cons xs) <= eg * d ->
+  mult_nonneg V cons -> concave_cons V x cons -> feasible V cons xs ->
+  kkt_exact V df xs cons_s -> concave_cons V xs cons_s ->
+  d <= (eg + sqrt (eg * eg + 4 * mu * (comp_slack V x cons + weighted_violation V x cons_s))) / (2 * mu).
+Proof. exact approx_KKT_is_near_min. Qed.
+
+Theorem C04_product_from_min : forall c l k, 0 < k -> 0 <= c -> 0 <= l -> l * c = Rmin (c * k) l * Rmax (c * k) l / k.
+Proof. exact product_from_min. Qed.
+(* NOT PROVED: convergence (that the loop returns at all): NotConverged (the NameError exit) is a legitimate outcome. *)
 
 (* bound-constrained front end (BoundConstrainedObjective): per constrained dof, with d = scaling > 0, scaled gradient g/d, scaled
    bound d*x >= 0 and multiplier lam, KKT in the scaled variables <=> KKT in the original variables with the multiplier d*lam
@@ -133,6 +146,13 @@ Proof. exact compute_min_p_minimises. Qed.
 
 Example C04_nonvacuous : Rabs (FB 0 3 2) <= 0 /\ FB 1 0 5 = 0.
 Proof. exact C04_nonvacuous_fb. Qed.
+Example C04_approx_KKT_nonvacuous :
+  let x := 11 / 10 in let xs := 1 in
+  let cons := [(22 / 10, (fun y : R => y - 1), (fun y z : R => z - y))] in
+  let cons_s := [(2, (fun y : R => y - 1), (fun y z : R => z - y))] in
+  kkt_exact R (fun y z => 2 * y * (z - y)) xs cons_s /\ concave_cons R xs cons_s /\ concave_cons R x cons /\ feasible R cons xs
+  /\ mult_nonneg R cons /\ comp_slack R x cons = 22 / 100.
+Proof. exact approx_KKT_nonvacuous. Qed.
 Example C04_convex_nonvacuous :
   let cons := [(2, (fun x : R => x - 1), (fun x y : R => y - x))] in
   kkt_exact R (fun x y => 2 * x * (y - x)) 1 cons /\ concave_cons R 1 cons /\ (forall y, 1 * 1 + 2 * 1 * (y - 1) <= y * y).
@@ -143,3 +163,4 @@ Print Assumptions C04_al_penalty_C1.
 Print Assumptions C04_every_outer_iteration.
 Print Assumptions C04_return_is_KKT.
 Print Assumptions C04_convex_KKT_is_min.
+Print Assumptions C04_approx_KKT_is_near_min.
